@@ -17,7 +17,7 @@ cargo nextest run --workspace --no-fail-fast --offline 2>&1 | tail -5 > suite.tx
 SUITE=$(grep -E "tests run:" suite.txt | tail -1)
 cp "$SRC/demo$N.rs" tests/seed_demo.rs
 grep -q 'name = "seed_demo"' Cargo.toml || printf '\n[[test]]\nname = "seed_demo"\npath = "tests/seed_demo.rs"\nrequired-features = ["tests-cfg"]\n' >> Cargo.toml
-FEATS="tests-cfg"
+FEATS="${SEED_FEATS:-tests-cfg}"
 grep -q "with-json\|serde_json" tests/seed_demo.rs && FEATS="$FEATS,with-json"
 cargo test --offline --features "$FEATS" --test seed_demo 2>&1 | tail -15 > demo_with.txt
 WITH=$(grep -E "^test result" demo_with.txt | tail -1)
